@@ -179,7 +179,7 @@ def _find_dos_header(fh: BinaryIO, start_offset: int = 0, maxrange: int = 1024) 
     """Find the IMAGE_DOS_HEADER and return a tuple ``(offset, Machine)`` or ``None`` if it cannot be found.
 
     A candidate offset needs an `e_lfanew` beyond the DOS header and within `maxrange` that leads to an
-    `IMAGE_FILE_HEADER.Machine` of x86 or x64 followed by the matching `IMAGE_OPTIONAL_HEADER.Magic`. Bytes in front of
+    `IMAGE_FILE_HEADER.Machine` of x86 or x64 with the matching `IMAGE_FILE_HEADER.SizeOfOptionalHeader`. Bytes in front of
     the image together with the first bytes of the image can also form such a candidate (the loader stub in the DOS
     header contains small dwords that are then read as `e_lfanew`), so of the candidates that lead to the same PE
     header the last one is returned.
@@ -187,9 +187,9 @@ def _find_dos_header(fh: BinaryIO, start_offset: int = 0, maxrange: int = 1024) 
     Side effects: file handle position due to seeking
     """
     start_offset = start_offset if start_offset is not None else fh.tell()
-    optional_magic = {
-        pestruct.IMAGE_FILE_MACHINE_I386: b"\x0b\x01",
-        pestruct.IMAGE_FILE_MACHINE_AMD64: b"\x0b\x02",
+    optional_header_size = {
+        pestruct.IMAGE_FILE_MACHINE_I386: len(pestruct.IMAGE_OPTIONAL_HEADER),
+        pestruct.IMAGE_FILE_MACHINE_AMD64: len(pestruct.IMAGE_OPTIONAL_HEADER64),
     }
     dos_header_size = len(pestruct.IMAGE_DOS_HEADER)
     found = None
@@ -206,7 +206,7 @@ def _find_dos_header(fh: BinaryIO, start_offset: int = 0, maxrange: int = 1024) 
                     continue
                 fh.seek(candidate_pe_offset + 4)
                 image = pestruct.IMAGE_FILE_HEADER(fh)
-                if image.Machine in optional_magic and fh.read(2) == optional_magic[image.Machine]:
+                if optional_header_size.get(image.Machine) == image.SizeOfOptionalHeader:
                     found = (start_offset + offset, image.Machine)
                     pe_offset = candidate_pe_offset
         except EOFError:
